@@ -92,6 +92,7 @@ type StreamPlan struct {
 	Echo    bool  `json:"echo,omitempty"`  // server echoes every client message
 	Sizes   []int `json:"sizes,omitempty"` // sizes of client messages
 	PSizes  []int `json:"psizes,omitempty"`
+	Readers2 bool `json:"r2,omitempty"` // a second goroutine reads on each end (C10: every blocked reader is released)
 }
 
 type Plan struct {
@@ -200,6 +201,8 @@ type StreamRec struct {
 	HandlerErr string
 	ClientReadErr, ClientWriteErr string
 	ClientBlocked bool
+	Readers       int // client-side ReadMessage calls in progress
+	helperDone    bool
 	CallBlocked string // "open" / "close" while Conn.NewStream / Stream.Close has not returned
 	CloseErr string
 	Closed bool
@@ -571,6 +574,30 @@ func (ss *StreamSvc) run(read func(*Msg) error, write func(*Msg) error) error {
 			return err
 		}
 		rec.SSent = append(rec.SSent, id)
+	}
+	var helperQ simrt.WaitQ
+	if rec.Plan.Readers2 {
+		// a second reader on the handler's end: it only consumes; the handler returns once both
+		// readers have been released
+		simrt.Go(fmt.Sprintf("harness.handler-reader.%d", ss.k), func() {
+			defer func() {
+				rec.helperDone = true
+				helperQ.WakeAll()
+			}()
+			for {
+				var m Msg
+				if err := read(&m); err != nil {
+					return
+				}
+				rec.SGot = append(rec.SGot, m.ID)
+				w.streamEvQ.WakeAll()
+			}
+		})
+		defer func() {
+			for !rec.helperDone {
+				simrt.Park(&helperQ)
+			}
+		}()
 	}
 	for {
 		var m Msg
